@@ -355,7 +355,7 @@ class Registry:
 
     def monitor(self, cls, **kw):
         m = Monitor(cls, **kw)
-        self.monitors[cls] = m
+        self.monitors.setdefault(cls, []).append(m)
         return m
 
     def external(self, kind, **methods):
